@@ -38,6 +38,8 @@ pub fn run_behaviour(suite: &dyn Suite, seed: u64, line: &Value) -> GroupOut {
     for (n, e) in events.iter().enumerate() {
         out.steps += 1;
         let k = e["k"].as_i64().unwrap_or(0);
+        crate::watch::context(format!("{} key-pair API {}", suite.name(), e));
+        let _running = crate::watch::enter();
         let r: Result<Vec<Vec<u8>>, String> = std::panic::catch_unwind(std::panic::AssertUnwindSafe(|| -> Result<Vec<Vec<u8>>, String> {
             match e["ev"].as_str().unwrap() {
                 "Make" => {
@@ -172,6 +174,8 @@ pub fn random_keys(suite: &dyn Suite, seed: u64, n: usize) -> (usize, Option<Val
     let mut evals = 0;
     for i in 0..n {
         let mut rng = TapeRng::new(seed, 5000 + i as i64);
+        crate::watch::context(format!("{} key-pair API: random_sk / derive / public / dh / round trips on tape {}", suite.name(), 5000 + i));
+        let _running = crate::watch::enter();
         let r = std::panic::catch_unwind(std::panic::AssertUnwindSafe(|| -> Result<(), String> {
             let a = suite.ke_random_sk(&mut rng);
             let mut s = vec![0u8; nsk];
